@@ -224,6 +224,10 @@ type Lifetime struct {
 	// multi-entry snapshot file: extra blank lines between (or before) its entries. The
 	// file stays predicted - the library ignores such lines. 0 = nothing.
 	PreEdit int `json:"preedit,omitempty"`
+	// PreLink: before this lifetime starts, the driver moves one predicted snapshot file
+	// to a store outside the snapshot directories and leaves a symbolic link to it under
+	// the file's name (golden files kept elsewhere); the file stays predicted.
+	PreLink int `json:"prelink,omitempty"`
 	// Trimpath: this lifetime runs the test binary that was built with -trimpath (the
 	// library then resolves relative snapshot directories against the working directory,
 	// which for `go test` is the package directory - the same place).
